@@ -81,7 +81,7 @@ def run(ctx):
         o = ctx.rng.choice(opts)
         docs.append((d["text"], o[0], o[1]))
         labels.append("valid-" + d["origin"])
-        meta.append(None)
+        meta.append(d["prog"])
     nval = len(docs)
     for _ in range(nmal):
         k, t = fmtlib.malformed_doc(ctx.rng)
@@ -94,6 +94,7 @@ def run(ctx):
     # property oracle on the valid stream
     valid_idx = [i for i in range(len(docs)) if labels[i].startswith("valid") or labels[i] == "corpus-valid"]
     vdocs = [docs[i] for i in valid_idx]
+    vprogs = [meta[i] if not isinstance(meta[i], str) else None for i in valid_idx]
     fails, st = oracle(exe, dump, vdocs)
     shown = 0
     byidx = {}
@@ -106,8 +107,20 @@ def run(ctx):
             if fmtlib.confirm(exe, vdocs[i], lambda o: o[0] in ("null", "edit")) is None:
                 continue
         if shown < 3:
-            ctx.violation(dict(kind="oracle", property="C09", text=vdocs[i][0], insert_spaces=vdocs[i][1], tab_size=vdocs[i][2],
-                               failures=[{k: v for k, v in f.items() if k != "index"} for f in fs]))
+            doc, fs2 = vdocs[i], fs
+            if vprogs[i] is not None and shown == 0:
+                # shrink the program (plain layout, no comments) as long as the same kind of failure remains
+                whats = {f["what"] for f in fs}
+
+                def still(v, o=(vdocs[i][1], vdocs[i][2])):
+                    f2, _ = oracle(exe, dump, [(fmtlib.plain_text(v), o[0], o[1])])
+                    return any(f["what"] in whats for f in f2)
+                if still(vprogs[i]):
+                    small = fmtlib.shrink_program(vprogs[i], still)
+                    doc = (fmtlib.plain_text(small), vdocs[i][1], vdocs[i][2])
+                    fs2, _ = oracle(exe, dump, [doc])
+            ctx.violation(dict(kind="oracle", property="C09", text=doc[0], insert_spaces=doc[1], tab_size=doc[2],
+                               failures=[{k: v for k, v in f.items() if k != "index"} for f in fs2]))
         shown += 1
     fmtlib.report_correspondence(ctx, corr, docs, labels, shown > 0, proved,
                                  "model Format.format_request and the server's textDocument/formatting response differ")
